@@ -19,7 +19,7 @@ KNN_METRICS = sorted(n for n in M.NAMES if M.symmetric(n) and M.dissimilarity(n)
 
 
 @st.composite
-def knn_case(draw, nmax=10, kinds=("knn", "unsup"), nq=(0, 0), kmax_force=False, modes=("feat", "feat", "feat", "pre"), metrics=None, point_kinds=None, jitter=True):
+def knn_case(draw, nmax=10, kinds=("knn", "unsup"), nq=(0, 0), kmax_force=False, modes=("feat", "feat", "feat", "pre"), metrics=None, point_kinds=None, jitter=True, force_int=False):
     model = draw(st.sampled_from(list(kinds)))
     mode = draw(st.sampled_from(list(modes)))
     nt = draw(st.one_of(st.integers(2, min(nmax, 6)), st.integers(3, nmax), st.integers(min(7, nmax), nmax)))
@@ -72,7 +72,7 @@ def knn_case(draw, nmax=10, kinds=("knn", "unsup"), nq=(0, 0), kmax_force=False,
         dim = draw(st.integers(1, 3))
         m = nt + case["nv"] + n_q
         X = draw(gen.points(m, dim, kind))
-        if jitter and kind == "lattice" and draw(st.booleans()):
+        if jitter and not force_int and kind == "lattice" and draw(st.booleans()):
             # jittered lattice: nearly (but not exactly) tied distances and densities
             jit = draw(st.lists(st.lists(st.integers(-4, 4), min_size=dim, max_size=dim), min_size=m, max_size=m))
             jscale = draw(st.sampled_from([0.0078125, 0.0009765625, 0.0001220703125]))
@@ -89,10 +89,10 @@ def knn_case(draw, nmax=10, kinds=("knn", "unsup"), nq=(0, 0), kmax_force=False,
                 X[q] = list(X[draw(st.integers(0, nt - 1))])
             elif r == 1 and kind in ("generic", "positive", "nonneg0"):
                 X[q] = [v + 500.0 for v in X[q]]
-        if kind == "lattice" and not case.get("pkind_jitter") and draw(st.booleans()):
+        if kind == "lattice" and not case.get("pkind_jitter") and (force_int or draw(st.booleans())):
             case["train_int"] = True  # integer-typed training matrix; validation / query rows real-valued
             for q in range(nt, m):
-                if draw(st.booleans()):
+                if force_int or draw(st.booleans()):
                     X[q] = [v + draw(st.sampled_from([0.5, 0.9, 0.25])) for v in X[q]]
         case.update({"X": X, "metric": name, "pkind": kind})
     return case
